@@ -74,10 +74,10 @@ NaiveScanFrom(NZ, cursor, e) ==
     ELSE (IF (cursor \div RR) \in NZ THEN << cursor >> ELSE << >>) \o NaiveScanFrom(NZ, cursor + RR, e)
 
 SInit == mem = [i \in 1..NB |-> 0] /\ last = [kind |-> "none"] /\ steps = 0
-SetByte == \E k \in 1..NB, v \in MemVals :
-              /\ mem' = [mem EXCEPT ![k] = v]
-              /\ UNCHANGED <<last, steps>>
-SSpec == SInit /\ [][SetByte]_<<mem, last, steps>>
+SetByte(k, v) == /\ mem' = [mem EXCEPT ![k] = v]
+                 /\ UNCHANGED <<last, steps>>
+SNext == \E k \in 1..NB, v \in MemVals : SetByte(k, v)
+SSpec == SInit /\ [][SNext]_<<mem, last, steps>>
 
 Addrs == 0..((NFS + 1) * RR - 1)
 Limits == 1..((NFS + 1) * RR + 1)
